@@ -86,9 +86,14 @@ func ZZ_C16_outcome() {
 func ZZ_C16_reads() {
 	s, cl := zzNewStore([][]byte{[]byte("m")}, 0)
 	defer s.close()
+	k := zzC16Pool[zzChoice("key", len(zzC16Pool))]
+	// the key may carry a value committed before the transaction started
+	committedBefore := zzChoice("committed-before", 2) == 1
+	if committedBefore {
+		cl.key(k).writes = append(cl.key(k).writes, zzWrite{startTS: 10, commitTS: 20, op: kvrpcpb.Op_Put, value: []byte("v0")})
+	}
 	txn := zzBeginPipelined(s)
 	ctx := context.Background()
-	k := zzC16Pool[zzChoice("key", len(zzC16Pool))]
 	v1 := append(zzBytesN("v1", 1), '1')
 	v2 := append(zzBytesN("v2", 1), '2')
 	zzAssume(txn.Set(k, v1) == nil)
@@ -114,6 +119,12 @@ func ZZ_C16_reads() {
 		zzAssert(txn.GetMemBuffer().FlushWait() == nil, "c16.reads.flushwait2")
 		_, err = txn.Get(ctx, k)
 		zzAssert(err != nil, "c16.flushed-delete-hides")
+		// once more after another (empty) flush round: the deletion is in neither local buffer
+		_, err = txn.GetMemBuffer().Flush(true)
+		zzAssert(err == nil, "c16.reads.flush2b")
+		zzAssert(txn.GetMemBuffer().FlushWait() == nil, "c16.reads.flushwait2b")
+		_, err = txn.Get(ctx, k)
+		zzAssert(err != nil, "c16.flushed-delete-hides-after-second-flush")
 	case 2: // overwrite, flush again: the second generation's value is read
 		zzAssume(txn.Set(k, v2) == nil)
 		_, err = txn.GetMemBuffer().Flush(true)
